@@ -557,3 +557,171 @@ Proof.
       * destruct (all_present (slot (set_qba s1 q)) (c :: args)); [|cbn; exact En]. destruct ret; [destruct args|]; cbn; exact En.
   - apply no_keyerror. apply Forall_app. split; [apply Forall_app; split; [exact Hv|]|]; repeat constructor.
 Qed.
+
+(* ---- from any reachable state: drop every proxy, let the notices be processed, and the entries are gone ---- *)
+Lemma iter_S {A} n (f : A -> A) x : Nat.iter (S n) f x = f (Nat.iter n f x).
+Proof. reflexivity. Qed.
+Definition no_calls (q : list msg) : Prop := forall ks, ~ In (MCall ks) q.
+Definition only_dels (q : list msg) : Prop := forall m, In m q -> exists k n, m = MDel k n.
+Definition norefs (q : list msg) : Prop := forall k, refs q k = 0.
+
+Lemma refs_app_noref q m : norefs q -> (forall k, refs_m m k = 0) -> norefs (q ++ [m]).
+Proof. intros Hq Hm k. rewrite refs_app, Hq. cbn [refs]. rewrite Hm. lia. Qed.
+
+Lemma deliver_ab_qab s : qab (deliver_ab P0 s) = tl (qab s).
+Proof.
+  unfold deliver_ab. destruct (qab s) as [|m q] eqn:E; [now rewrite E|].
+  destruct m as [ks|[r|]| |k n|k|c args ret|]; cbn [serve_peer tl]; try reflexivity.
+  - unfold unbox_all. cbn. destruct (fold_left (unbox1 P0) ks (prox s, holds s)). reflexivity.
+Qed.
+Lemma deliver_ba_qba s : qba (deliver_ba P0 s) = tl (qba s).
+Proof.
+  unfold deliver_ba. destruct (qba s) as [|m q] eqn:E; [now rewrite E|].
+  destruct m as [ks|r| |k n|k|c args ret|]; cbn [serve_owner tl]; try reflexivity.
+  - destruct (coll_decref P0 (slot (set_qba s q)) k n); reflexivity.
+  - destruct (coll_decref P0 (slot (set_qba s q)) k (p_dec_default P0)); reflexivity.
+  - destruct (all_present (slot (set_qba s q)) (c :: args)); [|reflexivity]. destruct ret; [destruct args|]; reflexivity.
+Qed.
+Lemma drain_gen (f : st -> st) (sel : st -> list msg) : (forall s, sel (f s) = tl (sel s)) ->
+  forall n s, List.length (sel s) = n -> sel (Nat.iter n f s) = [].
+Proof.
+  intros Hf. induction n as [|n IH]; intros s E.
+  - cbn. now destruct (sel s).
+  - rewrite iter_succ_r. apply IH. rewrite Hf. destruct (sel s); [discriminate|]. cbn in *. lia.
+Qed.
+Lemma drain_ab_empty s : qab (Nat.iter (List.length (qab s)) (deliver_ab P0) s) = [].
+Proof. now apply (drain_gen (deliver_ab P0) qab deliver_ab_qab). Qed.
+Lemma drain_ba_empty s : qba (Nat.iter (List.length (qba s)) (deliver_ba P0) s) = [].
+Proof. now apply (drain_gen (deliver_ba P0) qba deliver_ba_qba). Qed.
+
+Lemma deliver_ba_no_calls s : no_calls (qab s) -> no_calls (qab (deliver_ba P0 s)).
+Proof.
+  intros H. unfold deliver_ba. destruct (qba s) as [|m q]; [exact H|].
+  assert (R : forall x m', (forall ks, m' <> MCall ks) -> qab x = qab s -> no_calls (qab (reply x m'))).
+  { intros x m' Hm Ex ks Hin. cbn in Hin. rewrite Ex in Hin. apply in_app_or in Hin. destruct Hin as [Hin|[Hin|[]]]; [eapply H; eauto|eapply Hm; eauto]. }
+  destruct m as [ks|r| |k n|k|c args ret|]; cbn [serve_owner]; try exact H.
+  - destruct (coll_decref P0 (slot (set_qba s q)) k n); apply R; try discriminate; reflexivity.
+  - destruct (coll_decref P0 (slot (set_qba s q)) k (p_dec_default P0)); apply R; try discriminate; reflexivity.
+  - destruct (all_present (slot (set_qba s q)) (c :: args)); [|apply R; try discriminate; reflexivity].
+    destruct ret; [destruct args|]; apply R; try discriminate; reflexivity.
+Qed.
+Lemma iter_pres {A} (Q : A -> Prop) (f : A -> A) n s : (forall x, Q x -> Q (f x)) -> Q s -> Q (Nat.iter n f s).
+Proof. intros Hf Hs. induction n; cbn [Nat.iter nat_rect]; auto. Qed.
+
+(* a message that is not a call leaves the peer's outgoing stream alone *)
+Lemma deliver_ab_no_calls s : no_calls (qab s) -> qba (deliver_ab P0 s) = qba s /\ no_calls (qab (deliver_ab P0 s)).
+Proof.
+  intros H. split.
+  - unfold deliver_ab. destruct (qab s) as [|m q] eqn:E; [reflexivity|].
+    destruct m as [ks|[r|]| |k n|k|c args ret|]; cbn [serve_peer]; try reflexivity.
+    exfalso. apply (H ks). now left.
+  - rewrite deliver_ab_qab. intros ks Hin. apply (H ks). destruct (qab s); [destruct Hin|now right].
+Qed.
+
+Lemma sync_twice_empty s : let s' := sync P0 (sync P0 s) in qab s' = [] /\ qba s' = [].
+Proof.
+  cbn zeta.
+  set (s1 := sync P0 s).
+  assert (H1 : qba s1 = [] /\ no_calls (qab s1)).
+  { unfold s1, sync. split; [apply drain_ba_empty|].
+    apply (iter_pres (fun x => no_calls (qab x))); [apply deliver_ba_no_calls|].
+    rewrite drain_ab_empty. intros ks []. }
+  destruct H1 as [Hb Hc]. unfold sync.
+  set (s2 := Nat.iter (List.length (qab s1)) (deliver_ab P0) s1).
+  assert (H2 : qba s2 = [] /\ qab s2 = []).
+  { split; [|apply drain_ab_empty].
+    assert (G : forall n x, no_calls (qab x) -> qba (Nat.iter n (deliver_ab P0) x) = qba x /\ no_calls (qab (Nat.iter n (deliver_ab P0) x))).
+    { induction n as [|n IH]; intros x Hx; [now split|]. rewrite iter_S.
+      destruct (IH x Hx) as [E1 E2]. destruct (deliver_ab_no_calls _ E2) as [E3 E4]. split; [now rewrite E3|exact E4]. }
+    destruct (G (List.length (qab s1)) s1 Hc) as [E _]. unfold s2. now rewrite E. }
+  destruct H2 as [E1 E2]. rewrite E1. cbn. now split.
+Qed.
+
+Lemma drop_all_facts k s : Inv s -> only_dels (qba s) ->
+  let s' := drop_all P0 k s in
+  qab s' = qab s /\ only_dels (qba s') /\ prox s' k = None /\ (forall j, prox s j = None -> prox s' j = None).
+Proof.
+  intros I Hd. cbn zeta. unfold drop_all. destruct (holds s k) eqn:Eh.
+  - repeat split; auto. now apply (i_holds s I).
+  - unfold finalize. destruct (prox s k) as [r|] eqn:Er.
+    + cbn [P0 del_msg p_del_src std_params]. cbn. repeat split.
+      * intros m Hin. apply in_app_or in Hin. destruct Hin as [Hin|[<-|[]]]; [now apply Hd|now exists k, r].
+      * unfold upd. now rewrite Nat.eqb_refl.
+      * intros j Hj. unfold upd. now destruct (Nat.eqb j k).
+    + cbn. repeat split; auto.
+Qed.
+
+Lemma drop_alls_facts ks : forall s, Inv s -> only_dels (qba s) ->
+  let s' := run_from P0 s (map DropAll ks) in
+  Inv s' /\ qab s' = qab s /\ only_dels (qba s') /\ (forall k, In k ks -> prox s' k = None) /\
+  (forall j, prox s j = None -> prox s' j = None).
+Proof.
+  induction ks as [|k r IH]; intros s I Hd; cbn [map run_from fold_left].
+  - split; [exact I|]. repeat split; auto. intros k [].
+  - assert (Es : step P0 (DropAll k) s = drop_all P0 k s) by (unfold step; now rewrite (i_open s I)).
+    rewrite Es. destruct (drop_all_facts k s I Hd) as (A & B & Cc & D).
+    destruct (IH (drop_all P0 k s) (drop_all_inv k s I) B) as (I' & A' & B' & C' & D').
+    fold (run_from P0 (drop_all P0 k s) (map DropAll r)).
+    split; [exact I'|]. repeat split; auto.
+    + now rewrite A'.
+    + intros j [<-|Hj]; [now apply D'|now apply C'].
+Qed.
+
+Lemma deliver_ba_dels s : only_dels (qba s) -> norefs (qab s) ->
+  only_dels (qba (deliver_ba P0 s)) /\ norefs (qab (deliver_ba P0 s)) /\ prox (deliver_ba P0 s) = prox s.
+Proof.
+  intros Hd Hr. split; [|split].
+  - rewrite deliver_ba_qba. intros m Hin. apply Hd. destruct (qba s); [destruct Hin|now right].
+  - unfold deliver_ba. destruct (qba s) as [|m q] eqn:E; [exact Hr|].
+    destruct (Hd m (or_introl eq_refl)) as (k & n & ->). cbn [serve_owner].
+    destruct (coll_decref P0 (slot (set_qba s q)) k n); cbn; apply refs_app_noref; auto.
+  - unfold deliver_ba. destruct (qba s) as [|m q] eqn:E; [reflexivity|].
+    destruct (Hd m (or_introl eq_refl)) as (k & n & ->). cbn [serve_owner].
+    destruct (coll_decref P0 (slot (set_qba s q)) k n); reflexivity.
+Qed.
+
+Theorem release_after_drop ops ks : Forall valid_op ops -> closed (run P0 ops) = false ->
+  let s := run P0 (ops ++ [Sync; Sync] ++ map DropAll ks ++ [Sync]) in
+  closed s = false /\ qba s = [] /\ norefs (qab s) /\
+  forall k, In k ks -> prox s k = None /\ slot s k = None /\ alive s k = appref s k.
+Proof.
+  intros Hv Ho. cbn zeta.
+  assert (Hvall : Forall valid_op (ops ++ [Sync; Sync] ++ map DropAll ks ++ [Sync])).
+  { apply Forall_app. split; [exact Hv|]. apply Forall_app. split; [repeat constructor|].
+    apply Forall_app. split; [|repeat constructor]. apply Forall_forall. intros o Ho'. apply in_map_iff in Ho'. destruct Ho' as (k & <- & _). exact I. }
+  unfold run, run_from. rewrite !fold_left_app. fold (run_from P0 init ops). fold (run P0 ops).
+  set (s0 := run P0 ops).
+  assert (I0 : Inv s0) by (apply good_open; [now apply run_good|exact Ho]).
+  cbn [fold_left].
+  assert (E1 : step P0 Sync s0 = sync P0 s0) by (unfold step; now rewrite (i_open _ I0)).
+  rewrite E1. pose proof (sync_inv s0 I0) as I1.
+  assert (E2 : step P0 Sync (sync P0 s0) = sync P0 (sync P0 s0)) by (unfold step; now rewrite (i_open _ I1)).
+  rewrite E2. pose proof (sync_inv _ I1) as I2.
+  destruct (sync_twice_empty s0) as [Qa Qb]. set (s2 := sync P0 (sync P0 s0)) in *.
+  fold (run_from P0 s2 (map DropAll ks)).
+  assert (Hd2 : only_dels (qba s2)) by (rewrite Qb; intros m []).
+  destruct (drop_alls_facts ks s2 I2 Hd2) as (I3 & A3 & B3 & C3 & _).
+  set (s3 := run_from P0 s2 (map DropAll ks)) in *.
+  assert (E3 : step P0 Sync s3 = sync P0 s3) by (unfold step; now rewrite (i_open _ I3)).
+  rewrite E3. pose proof (sync_inv _ I3) as I4.
+  assert (Es4 : sync P0 s3 = Nat.iter (List.length (qba s3)) (deliver_ba P0) s3).
+  { unfold sync. rewrite A3, Qa. reflexivity. }
+  rewrite Es4 in *.
+  set (s4 := Nat.iter (List.length (qba s3)) (deliver_ba P0) s3) in *.
+  assert (G : forall n x, only_dels (qba x) -> norefs (qab x) ->
+     let y := Nat.iter n (deliver_ba P0) x in only_dels (qba y) /\ norefs (qab y) /\ prox y = prox x).
+  { induction n as [|n IH]; intros x H1 H2; [now repeat split|]. cbn zeta. rewrite iter_S.
+    destruct (IH x H1 H2) as (F1 & F2 & F3). destruct (deliver_ba_dels _ F1 F2) as (G1 & G2 & G3).
+    repeat split; auto. now rewrite G3. }
+  assert (Hr3 : norefs (qab s3)) by (rewrite A3, Qa; intros k; reflexivity).
+  destruct (G (List.length (qba s3)) s3 B3 Hr3) as (F1 & F2 & F3). fold s4 in F1, F2, F3.
+  assert (Qb4 : qba s4 = []) by apply drain_ba_empty.
+  split; [apply (i_open _ I4)|]. split; [exact Qb4|]. split; [exact F2|].
+  intros k Hk.
+  assert (Pk : prox s4 k = None) by (rewrite F3; now apply C3).
+  assert (Sk : slot s4 k = None).
+  { pose proof (i_cnt _ I4 k) as Hc. rewrite F2, Pk, Qb4 in Hc. cbn in Hc.
+    unfold Sv in Hc. destruct (slot s4 k) as [z|] eqn:Ez; [|reflexivity].
+    pose proof (i_nonneg _ I4 k z Ez). lia. }
+  repeat split; auto. unfold alive. rewrite Sk. apply orb_false_r.
+Qed.
